@@ -72,7 +72,8 @@ CHECKS = {
         note='GEOS validity is sandwiched between strictly-convex (valid) and bow-tie/collinear/zero-area (invalid); other cells '
              'are pruned. For rectangles validity is exact and linear. Axes stored in an integer dtype are symbolic Ints whose '
              'dtype-dependent arithmetic is seen by the replayed witness only. Two genuine defects are listed in known_findings.json '
-             '(CFGrid1D.geometry with non-contiguous stored bounds; fast-path bounds include dropped invalid cells).',
+             '(CFGrid1D.geometry with non-contiguous stored bounds; fast-path bounds include dropped invalid cells); one more '
+             '(1-D bounds held as coordinates ignored) was repaired in /repo.',
     ),
     'C04': dict(
         engine='symx',
